@@ -320,6 +320,9 @@ class TCPPacketGenerator(Device, OutMixIn):
         assert ack.flow_id >= 10000
 
         ackno = ack.ack
+        if ackno < self.last_ack:
+            # an old acknowledgement overtaken by a newer one: the mark never moves back
+            return
         if ackno == self.last_ack:
             self.dupack += 1
         else:
